@@ -96,6 +96,32 @@ example : -- non-vacuity of the discipline: write, write, then deferred + eager 
       (.seq (.write 1 (fun d => d ++ [2])) (.seq (.memOnCommit (fun m => m ++ [1])) (.memEager (fun m => m ++ [2])))) :
         Prog Nat (List Nat) (List Nat)) = true := by decide
 
+/-- Shape of `ScopedKeyManager.nextAddresses` for `n` addresses: per address the row/index writes followed by the
+eager `loadAndCacheAddress`, and at the end the OnCommit closure that advances the index (scoped_manager.go). -/
+def nextAddressesShape (n : Nat) : Prog Nat (List Nat) (List Nat) :=
+  .seq (.loop (fun _ _ => n)
+          (.seq (.write 0 (fun d => d ++ [0])) (.seq (.write 1 (fun d => d ++ [1])) (.memEager (fun m => m ++ [7])))))
+       (.memOnCommit (fun m => m ++ [9]))
+
+/-- The real shape violates the discipline as soon as a loop iteration can follow another ... -/
+example : noEagerBeforeWrite (nextAddressesShape 2) = false := by decide
+
+/-- ... and the model exhibits the finding F-C10-3: two addresses, the first write of the second address fails:
+error, disk restored, the cache entry of the first address stays (memory `[7]`), the index is not advanced. -/
+theorem C10_nextAddresses_shape_memory_ahead :
+    (bracket (fun _ => .propagated) (nextAddressesShape 2) ⟨[], []⟩ (some 3)).2 = .err ∧
+    (bracket (fun _ => .propagated) (nextAddressesShape 2) ⟨[], []⟩ (some 3)).1.disk = [] ∧
+    (bracket (fun _ => .propagated) (nextAddressesShape 2) ⟨[], []⟩ (some 3)).1.mem = [7] ∧
+    (bracket (fun _ => .propagated) (nextAddressesShape 2) ⟨[], []⟩ none).1.mem = [7, 7, 9] := by
+  decide
+
+/-- Fault atomicity still holds for it (loops and deferred steps are covered by the general theorem). -/
+example (k : Nat) :
+    (bracket (fun _ => .propagated) (nextAddressesShape 3) ⟨[], []⟩ (some k)).2 = .err ∨
+    bracket (fun _ => .propagated) (nextAddressesShape 3) ⟨[], []⟩ (some k) =
+      bracket (fun _ => .propagated) (nextAddressesShape 3) ⟨[], []⟩ none :=
+  C10_bracket_fault_atomic _ _ (fun _ _ => rfl) _ k
+
 /-! ### retry -/
 
 /-- A run that failed (fault at any position, or none) and was rolled back, retried without fault, gives exactly
